@@ -439,6 +439,12 @@ impl DatabaseHeader {
         slot.corrupt_bytes = None;
     }
 
+    // Whether the secondary slot failed its checksum when the header was loaded. The fields of
+    // such a slot (root pointers, non-null flags, transaction id) are untrusted.
+    pub(super) fn secondary_slot_failed_verification(&self) -> bool {
+        self.secondary_slot().corrupt_bytes.is_some()
+    }
+
     pub(super) fn swap_primary_slot(&mut self) {
         self.primary_slot ^= 1;
     }
